@@ -149,14 +149,14 @@ theorem c20_failed_join_unchanged (P : Prog) (s s' : State) (t k : Nat) (rest : 
     (h : exec P s t (.joinU k) rest = some s') (hf : t = k ∨ s.detachedS k = true) :
     s'.hstate = s.hstate ∧ s'.detachedS = s.detachedS ∧ s'.count = s.count ∧ s'.pending = s.pending ∧
     s'.lockOwner = s.lockOwner ∧ (∀ j, j ≠ t → s'.th j = s.th j) ∧ (s'.th t).status = (s.th t).status ∧
-    (s'.th t).chain = (s.th t).chain ∧ ∃ e, e ≠ 0 ∧ s'.log = Ev.joinFail k t e :: s.log := by
+    (s'.th t).chain = (s.th t).chain ∧ ∃ e st, e ≠ 0 ∧ s'.log = Ev.joinFail k t e st :: s.log := by
   simp only [exec] at h
   split at h
   · simp only [Option.some.injEq] at h; subst h
-    exact ⟨rfl, rfl, rfl, rfl, rfl, fun j hj => by simp [upd_apply, hj], by simp, by simp, 35, by decide, rfl⟩
+    exact ⟨rfl, rfl, rfl, rfl, rfl, fun j hj => by simp [upd_apply, hj], by simp, by simp, 35, _, by decide, rfl⟩
   · split at h
     · simp only [Option.some.injEq] at h; subst h
-      exact ⟨rfl, rfl, rfl, rfl, rfl, fun j hj => by simp [upd_apply, hj], by simp, by simp, 22, by decide, rfl⟩
+      exact ⟨rfl, rfl, rfl, rfl, rfl, fun j hj => by simp [upd_apply, hj], by simp, by simp, 22, _, by decide, rfl⟩
     · rename_i h1 h2
       rcases hf with hf | hf
       · exact absurd hf h1
@@ -410,5 +410,27 @@ example :
     (s.th 1).status = .running ∧ (s.th 2).status = .running ∧
       (step cyc s 0).isNone = true ∧ (step cyc s 1).isNone = true ∧ (step cyc s 2).isNone = true := by
   decide
+
+
+/-- **C20 (thread name)**: (a) `aws_thread_current_name` reports exactly whether the calling thread carries the
+launch name and changes nothing else (count, pending list, handles, wrappers, every other thread, the caller's
+status and at-exit chain); (b) at the top of `thread_fn` a thread launched with a name carries it from its first
+step on and the name string is released there (one wrapper-owned block fewer), while a thread launched without
+one keeps whatever its creator carried. -/
+theorem c20_thread_name (P : Prog) (s : State) (t : Nat) :
+    (∀ s' rest, exec P s t .logName rest = some s' →
+      s'.log = Ev.name t (s.th t).hasName :: s.log ∧ s'.count = s.count ∧ s'.pending = s.pending ∧
+      s'.hstate = s.hstate ∧ s'.wLive = s.wLive ∧ s'.lockOwner = s.lockOwner ∧ (∀ j, j ≠ t → s'.th j = s.th j) ∧
+      (s'.th t).status = (s.th t).status ∧ (s'.th t).chain = (s.th t).chain ∧
+      (s'.th t).hasName = (s.th t).hasName ∧ (s'.th t).code = rest) ∧
+    ((startStep P s t).th t).hasName = ((s.th t).named || (s.th t).hasName) ∧
+    ((startStep P s t).th t).named = false ∧
+    (startStep P s t).wLive = s.wLive - (s.th t).named.toNat := by
+  refine ⟨?_, by simp, by simp, rfl⟩
+  intro s' rest h
+  simp only [exec, Option.some.injEq] at h
+  subst h
+  exact ⟨rfl, rfl, rfl, rfl, rfl, rfl, fun j hj => by simp [pushLog, cont, upd_apply, hj], by simp [pushLog, cont],
+    by simp [pushLog, cont], by simp [pushLog, cont], by simp [pushLog, cont]⟩
 
 end AwsVerif.Props.C20
